@@ -332,14 +332,19 @@ func letterCall(l byte, pos int) Call {
 		}
 		return op(ops.OpSetNReg(200, false, 1))
 	case 'K':
-		if pos%2 == 0 {
+		switch pos % 4 {
+		case 0:
 			return op(ops.OpSetNReg(3, true, 2))
+		case 1:
+			return op(ops.OpSetCReg(1, true, ops.ColorV{T: 2, R: 9}))
+		case 2:
+			return op(ops.OpSetNReg(8, true, 2)) // low three bits clear
 		}
-		return op(ops.OpSetCReg(1, true, ops.ColorV{T: 2, R: 9}))
+		return op(ops.OpSetCReg(0x40, true, ops.ColorV{T: 2, R: 9}))
 	case 'P':
 		return op(ops.OpStartPath(uint8(pos%7), 1, float32(pos)))
 	case 'Q':
-		return op(ops.OpStartPath(7+uint8(pos), 1, 2))
+		return op(ops.OpStartPath([]uint8{7, 64, 8, 255, 0x86, 9, 0xc3}[pos%7], 1, 2)) // also values whose low bits look like a legal adjustment
 	case 'd':
 		kinds := []ops.Kind{ops.AbsLineTo, ops.RelHLineTo, ops.AbsCubeTo, ops.RelSmoothQuadTo}
 		k := kinds[(pos/2)%len(kinds)] // neighbouring positions 2n, 2n+1 repeat the verb (one run), 2n+1, 2n+2 change it
@@ -568,7 +573,12 @@ func genCall(t *rapid.T, drawing bool) Call {
 		case 0:
 			return op(ops.OpSetCReg(uint8(rapid.IntRange(7, 255).Draw(t, "adj")), rapid.Bool().Draw(t, "incr"), ops.ColorV{T: 1, R: 1}))
 		case 1:
-			return op(ops.OpSetNReg(uint8(rapid.IntRange(1, 6).Draw(t, "adj")), true, 1))
+			// an incrementing write with any non-zero adjustment (1-6: the incrementing rule; 7-255,
+			// multiples of 8 included: the adjustment rule as well)
+			if rapid.Bool().Draw(t, "badincr.c") {
+				return op(ops.OpSetCReg(uint8(rapid.IntRange(1, 255).Draw(t, "adj")), true, ops.ColorV{T: 2, R: 4}))
+			}
+			return op(ops.OpSetNReg(uint8(rapid.IntRange(1, 255).Draw(t, "adj")), true, 1))
 		case 2:
 			return op(ops.OpStartPath(uint8(rapid.IntRange(7, 255).Draw(t, "adj")), 0, 0))
 		case 3:
